@@ -99,7 +99,8 @@ func (p *Prog) FieldAccesses(typ, field string) []FieldAccess {
 							}
 						case *ssa.UnOp:
 							if u.Op == token.MUL {
-								out = append(out, FieldAccess{f, v, false, isFresh(v.X), nil, v.X})
+								// a load of a map/slice-typed field whose value is then mutated in place is a write to the shared structure
+								out = append(out, FieldAccess{f, v, mutatesContainer(u), isFresh(v.X), nil, v.X})
 							}
 						case *ssa.FieldAddr, *ssa.IndexAddr:
 							// nested access: a read of the outer field's storage location (no load of the outer value)
@@ -236,4 +237,42 @@ func (p *Prog) Iface(path, name string) *types.Interface {
 	}
 	i, _ := o.Type().Underlying().(*types.Interface)
 	return i
+}
+
+// mutatesContainer: the loaded map/slice value is updated in place (m[k] = v, delete(m, k), s[i] = v).
+func mutatesContainer(load *ssa.UnOp) bool {
+	refs := load.Referrers()
+	if refs == nil {
+		return false
+	}
+	for _, r := range *refs {
+		switch u := r.(type) {
+		case *ssa.MapUpdate:
+			if u.Map == ssa.Value(load) {
+				return true
+			}
+		case *ssa.Call:
+			if b, ok := u.Call.Value.(*ssa.Builtin); ok && (b.Name() == "delete" || b.Name() == "clear") && len(u.Call.Args) > 0 && u.Call.Args[0] == ssa.Value(load) {
+				return true
+			}
+			// mutating methods of container/list through the loaded *list.List
+			if f := u.Call.StaticCallee(); f != nil && f.Pkg != nil && f.Pkg.Pkg.Path() == "container/list" && len(u.Call.Args) > 0 && u.Call.Args[0] == ssa.Value(load) {
+				switch f.Name() {
+				case "MoveToFront", "MoveToBack", "MoveBefore", "MoveAfter", "PushBack", "PushFront", "PushBackList", "PushFrontList", "Remove", "Init", "InsertBefore", "InsertAfter":
+					return true
+				}
+			}
+		case *ssa.IndexAddr:
+			if u.X == ssa.Value(load) {
+				if rr := u.Referrers(); rr != nil {
+					for _, x := range *rr {
+						if st, ok := x.(*ssa.Store); ok && st.Addr == ssa.Value(u) {
+							return true
+						}
+					}
+				}
+			}
+		}
+	}
+	return false
 }
